@@ -360,3 +360,8 @@ func (c18) Run(plan interface{}, schedSeed uint64, replay []simrt.Choice, lenien
 	v.Sample = map[string]interface{}{"format": p.Format, "tasks": len(p.Progs), "holds": len(all), "steps": out.Steps}
 	return v, out
 }
+
+// RequiredProbes: a batch in which one of these never fired explored nothing of that kind (exit 2, not a pass).
+func (c18) RequiredProbes() []string {
+	return []string{"concurrent-holders", "id-reused", "fault:pool-gc-empties", "fault:pool-drop-on-put", "porcupine-ok"}
+}
